@@ -7,10 +7,10 @@ PROPS = {}
 
 
 def K(id, prop, file, harness_mod, fns, label, clause, tier="quick", timeout=600, bound=None, assumes=(),
-      min_covers=1, replay="playback", harness=None):
+      min_covers=1, replay="playback", harness=None, native_test=None):
     UNITS.append(dict(id=id, prop=prop, engine="K", file=file, harness="%s::verif_kani::%s" % (harness_mod, harness or id),
                       fns=list(fns), label=label, clause=clause, tier=tier, timeout=timeout, bound=bound,
-                      assumes=list(assumes), min_covers=min_covers, replay=replay))
+                      assumes=list(assumes), min_covers=min_covers, replay=replay, native_test=native_test))
 
 
 def V(id, prop, spec, fns, label, clause, tier="quick", timeout=300, assumes=(), witness_unit=None, instance=None):
@@ -74,8 +74,8 @@ for f, T, m in _FIELDS:
     k("reduce_u128_contract", ["%s::modulo_prime_u128" % T], "canonical representative of input mod P for every u128", min_covers=2, timeout=1500)
     k("truncate_from_any", ["<%s as U128Conversions>::truncate_from" % T, "<%s as FromRandomU128>::from_random_u128" % T, "<%s as U128Conversions>::as_u128" % T],
       "truncate_from / from_random_u128 are modulo_prime_u128 of the widened argument")
-    k("try_from_ok_side", ["<%s as TryFrom<u128>>::try_from" % T], "values that fit in BITS bits are accepted and reduced",
-      assumes=["the Err arm (format!) is not executed; its guard is the negation of the assumed condition"])
+    k("try_from_ok_side", ["<%s as TryFrom<u128>>::try_from" % T], "Ok <=> the value fits in BITS bits, and then the canonical reduction", min_covers=2,
+      assumes=["kani::stub(alloc::fmt::format): only builds the error message"])
     k("assign_ops", ["<%s as AddAssign>::add_assign" % T, "<%s as SubAssign>::sub_assign" % T, "<%s as MulAssign>::mul_assign" % T],
       "compound assignment = binary operator")
     k("eq_and_store", ["<%s as PartialEq>::eq" % T, "<%s as ConstantTimeEq>::ct_eq" % T, "From<%s> for storage" % T], "equal values compare equal and convert to the same integer")
@@ -88,7 +88,12 @@ for f, T, m in _FIELDS:
       "for all 0 < a < P: canon(r) and a*r = 1 (mod P); no u128 overflow; termination", instance=T,
       assumes=["prime(P) (mathematical fact, cross-checked by sympy)",
                "external_body verif_try_from_unwrap: try_from(x).unwrap() = x for x < P (engine K units try_from_ok_side + reduce_u128_contract)",
-               "the element's canonical value is passed as integer parameter (canon(self), engine K invariant)"])
+               "the element's canonical value is passed as integer parameter (canon(self), engine K invariant)"],
+      witness_unit="c08_invert_fp31_exhaustive")
+K("c08_invert_fp31_exhaustive", "C08", "prime_field", "ff::prime_field", ["<Fp31 as PrimeField>::invert (unsubstituted)"], "complete-for-instance",
+  "a * invert(a) = 1 for all 30 non-zero elements; witness source for the Verus unit", min_covers=2, timeout=900)
+K("c08_batch_invert_fp31_n2", "C08", "prime_field", "ff::prime_field", ["batch_invert::<2, Fp31>"], "complete-for-instance",
+  "element-wise inverses for all 900 pairs of non-zero elements (enumerated)", timeout=1800, tier="thorough")
 _A = "ff::accumulator"
 K("c08_acc_constants", "C08", "accumulator", _A, ["Accumulator::new", "Accumulator::from"], "complete",
   "REDUCE_INTERVAL = 64 with a u128 accumulator cannot overflow: 64*(P-1)^2 + (P-1) < 2^128; new/from establish the invariant")
@@ -176,8 +181,10 @@ PROPS["C14"] = dict(
     level="proof",
     decided=["CircularBuf cursor functions len/can_read/can_write/is_empty/remaining/mask/wrap/inc/capacity/close against the abstract queue length, every capacity (Verus)",
              "cursor updates of write/take preserve the invariant and change the length by exactly delta (Verus lemma fns through the real inc)",
-             "BOUNDED (cap <= 8): take/write contents, frame, FIFO order against a reference queue"],
-    undecided=["OrderingSender (next_op, WaitingShard, woken_at), UnorderedReceiver (Spare, OperatingState wakers): interleavings over atomics and wakers; "
+             "BOUNDED (cap <= 8): take/write contents, frame, FIFO order against a reference queue",
+             "WaitingShard guard lemma (all positions): after wake(j) and any later wake, a registration with a stale view (current < j) is rejected; BOUNDED (<= 3 saved wakers): wake() contract incl. woken_at' = max(woken_at, i)",
+             "BOUNDED: OperatingState::add_waker: one waker per ring slot, overflow list for far-ahead records"],
+    undecided=["OrderingSender::next_op and the callers of WaitingShard / OperatingState: interleavings over atomics, mutex hand-over and wakers; UnorderedReceiver Spare (GenericArray: CBMC abort); "
                "Kani has no threads, Verus would need permission-typed re-implementations (= a model)", "blocking / wake-ups / lost wake-ups"],
     trusted_base=[], assumptions=[],
     explanation="proof for the cursor algebra of the ring buffer; contents bounded; interleavings undecided",
@@ -192,6 +199,17 @@ K("c14_take_contract", "C14", "circular", _C, ["CircularBuf::take"], "bounded", 
 K("c14_close_contract", "C14", "circular", _C, ["CircularBuf::close"], "bounded", "only sets the flag", bound="cap <= 8")
 K("c14_fifo_against_reference", "C14", "circular", _C, ["CircularBuf::{new,next,take,close}", "Next::write"], "bounded",
   "any <= 4 operations return the reference queue's bytes in order", bound="cap <= 4, ws <= 2, 4 operations", min_covers=2, timeout=1200, tier="thorough")
+
+_O = "helpers::buffers::ordering_sender"
+K("c14_waiting_shard_wake_contract", "C14", "ordering_sender", _O, ["WaitingShard::wake"], "bounded",
+  "woken_at' = max(woken_at, i) (monotone guard); the waker saved for i is woken exactly once and it and all smaller indices are removed; nothing else changes",
+  bound="<= 3 saved wakers, symbolic indices", min_covers=3, timeout=1200, tier="thorough")
+K("c14_waiting_shard_guard_lemma", "C14", "ordering_sender", _O, ["WaitingShard::wake", "WaitingShard::add"], "complete",
+  "after wake(j) and any further wake(a), add(current < j, ..) is rejected, all usize j, a, current (no saved wakers)", min_covers=2, timeout=900)
+_U = "helpers::buffers::unordered_receiver"
+K("c14_receiver_add_waker_contract", "C14", "unordered_receiver", _U, ["OperatingState::add_waker", "OperatingState::is_next"], "bounded",
+  "one waker per ring slot (re-registration replaces), far-ahead wakers go to the overflow list, cursor untouched",
+  bound="ring capacity in {2,4}, start cursor < 4, enumerated", timeout=1200, tier="thorough")
 
 # ============================================================================ C18 (rest)
 K("c18_transition_table", "C18", "query_state", "query::state", ["QueryState::transition"], "complete",
@@ -224,7 +242,8 @@ PROPS["C12"] = dict(
     level="proof",
     decided=["NoiseParams::new accepts exactly the documented ranges (all non-NaN f64)",
              "OPRFPaddingDp::new validation prefix accepts exactly the documented ranges and yields truncation point >= sensitivity",
-             "sample_shares: noise value -n..n maps to (value mod 2^width) on the non-excluded side and 0 on the other, widths 8/16/32 (so -1 is reachable at every width)"],
+             "sample_shares: noise value -n..n maps to (value mod 2^width) on the non-excluded side and 0 on the other, widths 8/16/32 (so -1 is reachable at every width)",
+             "BOUNDED: deterministic skeleton of the rejection sampler over an explicit coin tape: first in-range draw of shift + G1 - G2, unchanged"],
     undecided=["the probability law, find_smallest_n / right_hand_side / pow_u32 (transcendental floats), the rejection sampler",
                "dummy-record sharing and the three noise passes (interactive)", "NaN parameters"],
     trusted_base=[], assumptions=["assumed contract of the sampler: 0 <= sample <= 2*shift", "assumed contract of find_smallest_n: big_delta <= n <= 1_000_000"],
@@ -233,10 +252,18 @@ PROPS["C12"] = dict(
 K("c12_noise_params_new", "C12", "dp", "protocol::dp", ["NoiseParams::new"], "complete", "is_ok <=> documented range", min_covers=2)
 K("c12_padding_dp_new_validation", "C12", "oprf_insecure", "protocol::ipa_prf::oprf_padding::insecure", ["OPRFPaddingDp::new"], "complete",
   "is_ok <=> documented range (epsilon <= 1e300)", min_covers=2, assumes=["kani::stub(find_smallest_n) by its assumed contract"], replay="none")
+K("c12_rejection_sampler_skeleton", "C12", "oprf_distributions", "protocol::ipa_prf::oprf_padding::distributions",
+  ["<TruncatedDoubleGeometric as Distribution<u32>>::sample", "<DoubleGeometric as Distribution<i32>>::sample", "<Geometric as Distribution<u32>>::sample"], "bounded",
+  "result = first draw shift + G1 - G2 in [0, 2*shift], unchanged; out-of-range draws are rejected and redrawn; exactly those coins are consumed",
+  bound="coin tape <= 8, shift <= 2", min_covers=4, timeout=1800, replay="playback")
+K("c12_shifted_laplace_new_modulus", "C12", "dp", "protocol::dp", ["ShiftedTruncatedDiscreteLaplace::new"], "complete",
+  "stored modulus = 2^bit_size for every bit_size in 1..=32; stored shift = the sampler's truncation point", min_covers=2, timeout=900, replay="none",
+  assumes=["kani::stub(OPRFPaddingDp::new): some shift <= 1_000_000"], native_test={"file": "c12_sample_shares.rs", "name": "verif_replay_sample_shares_minus_one"})
 for w_, u_ in (("ba8", 10), ("ba16", 18), ("ba32", 34)):
-    K("c12_sample_shares_%s" % w_, "C12", "dp", "protocol::dp", ["ShiftedTruncatedDiscreteLaplace::new", "ShiftedTruncatedDiscreteLaplace::sample_shares"],
+    K("c12_sample_shares_%s" % w_, "C12", "dp", "protocol::dp", ["ShiftedTruncatedDiscreteLaplace::sample_shares"],
       "complete-for-instance", "share = (sample - shift) mod 2^width on the non-excluded side, 0 on the other", min_covers=3, replay="none",
-      assumes=["kani::stub(sample) by its assumed contract 0 <= s <= 2*shift", "kani::stub(OPRFPaddingDp::new): some shift <= 1_000_000"], timeout=900)
+      assumes=["kani::stub(sample) by its assumed contract 0 <= s <= 2*shift", "state as established by new (unit c12_shifted_laplace_new_modulus)"], timeout=1500,
+      native_test={"file": "c12_sample_shares.rs", "name": "verif_replay_sample_shares_minus_one"})
 
 # ============================================================================ C13
 PROPS["C13"] = dict(
@@ -261,13 +288,14 @@ for rec in (1, 2, 3, 4, 8, 12, 16, 24, 32, 96, 4097):
 # ============================================================================ C11
 PROPS["C11"] = dict(
     level="proof",
-    decided=["UniqueTag::shard_picker: for all 2^128 tags and shard counts 1..=8: result < n, equals tag mod n, deterministic (copies of a report route to the same valid shard)",
+    decided=["UniqueTag::shard_picker: for all 2^128 tags and shard counts 1..=8: result < n and equal tags give equal shards (copies of a report route to the same existing shard)",
              "from_unique_bytes is a byte copy"],
     undecided=["reshard_aad (async exchange)", "UniqueTagValidator::check_duplicates over the real HashSet", "'before attribution starts' ordering", "shard counts > 8 (symbolic divisor does not finish)"],
     trusted_base=[], assumptions=[],
     explanation="scoped to routing",
 )
-K("c11_shard_picker", "C11", "report_hybrid", "report::hybrid", ["UniqueTag::shard_picker"], "complete-for-instance", "valid, = tag mod n, deterministic; n in 1..=8", timeout=900)
+K("c11_shard_picker_valid", "C11", "report_hybrid", "report::hybrid", ["UniqueTag::shard_picker"], "complete-for-instance", "result < n, no panic; all tags, n in 1..=8", timeout=900)
+K("c11_shard_picker_deterministic", "C11", "report_hybrid", "report::hybrid", ["UniqueTag::shard_picker"], "complete-for-instance", "equal tags => equal shard; all tags, n in 1..=8", timeout=900)
 K("c11_unique_tag_copy", "C11", "report_hybrid", "report::hybrid", ["UniqueTag::from_unique_bytes", "<UniqueTag as UniqueBytes>::unique_bytes"], "complete", "byte copy")
 
 # ============================================================================ C10
@@ -282,26 +310,27 @@ PROPS["C10"] = dict(
                 "not a proof for all lengths; the authenticity clause is undecided",
 )
 K("c10_event_type_try_from", "C10", "report_hybrid", "report::hybrid", ["HybridEventType::try_from"], "complete", "Ok iff byte in {0,1}", min_covers=2)
-K("c10_report_from_bytes_short", "C10", "report_hybrid", "report::hybrid", ["EncryptedHybridReport::from_bytes"], "bounded", "returns Err, never panics", bound="len <= 3", min_covers=2, timeout=900)
+K("c10_report_from_bytes_short", "C10", "report_hybrid", "report::hybrid", ["EncryptedHybridReport::from_bytes"], "bounded", "returns Err, never panics", bound="len <= 3", min_covers=2, timeout=900,
+  native_test={"file": "c10_report.rs", "name": "verif_replay_report_from_bytes_empty"})
 K("c10_report_from_bytes_boundary_imp", "C10", "report_hybrid", "report::hybrid", ["EncryptedHybridReport::from_bytes", "EncryptedHybridImpressionReport::from_bytes"], "bounded",
   "INFO_OFFSET-1 bytes rejected with Length, INFO_OFFSET accepted", bound="the two boundary lengths", timeout=900)
 K("c10_report_from_bytes_boundary_conv", "C10", "report_hybrid", "report::hybrid", ["EncryptedHybridReport::from_bytes", "EncryptedHybridConversionReport::from_bytes"], "bounded",
   "same for the conversion variant", bound="the two boundary lengths", timeout=900)
 K("c10_impression_info_total", "C10", "report_hybrid_info", "report::hybrid_info", ["HybridImpressionInfo::from_bytes"], "complete", "total on len 0..=2; Err iff empty", min_covers=2)
-for n in (0, 1, 2, 25, 26, 27, 28):
+for n in (0, 1, 2, 3, 26, 27):
     K("c10_conversion_info_total_len%d" % n, "C10", "report_hybrid_info", "report::hybrid_info", ["HybridConversionInfo::from_bytes"], "bounded",
-      "returns (never panics); Ok only for NUL-delimited records with a 25-byte tail", bound="len = %d, contents symbolic" % n, timeout=1200,
-      tier=("quick" if n in (0, 1, 26) else "thorough"))
+      "returns (never panics); Ok only for NUL-delimited records with a 25-byte tail", bound="len = %d, contents symbolic" % n, timeout=1500,
+      tier=("quick" if n <= 3 else "thorough"), native_test={"file": "c10_parsers.rs", "name": "verif_replay_parsers_total"})
 
 # ============================================================================ C15
 PROPS["C15"] = dict(
     level="other",
-    decided=["BOUNDED (n <= 3 futures, window <= 2): results in input order, each exactly once; end only after all; window kept full while input remains; every in-flight future polled on each call; completed futures never polled again"],
-    undecided=["larger windows / longer inputs", "seq_try_join_all early stop", "multi-threaded variant (unsafe, async-scoped)", "validated_seq_join", "parallel_join (futures crate)"],
+    decided=["BOUNDED (n <= 2 futures, window <= 2): results in input order, each exactly once; end only after all; window kept full while input remains; every in-flight future polled on each call; completed futures never polled again"],
+    undecided=["larger windows / longer inputs (n = 3, w = 2 exhausts 60 GB of memory)", "seq_try_join_all early stop", "multi-threaded variant (unsafe, async-scoped)", "validated_seq_join", "parallel_join (futures crate)"],
     trusted_base=[], assumptions=["kani::stub(periodic_memory_report) = no-op (reaches tracing => kani-compiler ICE)"],
     explanation="bounded symbolic exploration of every completion order of the real SequentialFutures::poll_next within the stated bounds; not a proof for all n, w",
 )
-for n_, w_, t_ in ((1, 1, "quick"), (2, 1, "quick"), (2, 2, "quick"), (3, 2, "thorough")):
+for n_, w_, t_ in ((1, 1, "quick"), (2, 1, "quick"), (2, 2, "quick")):
     K("c15_seq_join_n%d_w%d" % (n_, w_), "C15", "seq_join", "seq_join::local", ["SequentialFutures::poll_next", "SequentialFutures::new", "ActiveItem::{check_ready,take}"], "bounded",
       "in-order, exactly-once, window full, all polled", bound="n = %d, w = %d, polls <= %d" % (n_, w_, n_ + 2), min_covers=2, timeout=1800, tier=t_, replay="none")
 
